@@ -1,6 +1,7 @@
 package refint
 
 import (
+	"path"
 	"sort"
 	"strings"
 
@@ -15,6 +16,11 @@ type Files map[string][]*tw.Stmt
 func ResolveName(name, dir string) string {
 	if strings.HasPrefix(name, "~") {
 		return dir + "/" + name[1:]
+	}
+	// a name is a path relative to the template directory: "/a", "./a", "a//b"
+	// and "x/../a" are spellings of "a" (names that leave the directory stay as written)
+	if c := path.Clean(strings.TrimLeft(name, "/")); c != "." && !strings.HasPrefix(c, "..") {
+		return c
 	}
 	return name
 }
